@@ -65,6 +65,13 @@ func (m *MDP) DecodeFromBytes(data []byte, df gopacket.DecodeFeedback) error {
 			break
 		}
 		t := data[offset]
+		if t != MdpTlvEnd {
+			// every other TLV has a length byte and that many value bytes
+			if offset+2 > len(data) || offset+2+int(data[offset+1]) > len(data) {
+				df.SetTruncated()
+				return fmt.Errorf("MDP TLV at offset %d exceeds packet length %d", offset, len(data))
+			}
+		}
 		switch t {
 		case MdpTlvDeviceInfo:
 			offset += 2
